@@ -34,6 +34,18 @@ TX = {'metric': 'metric_state_transaction', 'alert': 'alert_state_transaction', 
       'op': 'operational_state_transaction', 'rt': 'rt_sample_state_transaction'}
 
 
+class _IdSet:
+    def __init__(self):
+        self.ids = set()
+
+    def __contains__(self, ex):
+        return id(ex) in self.ids
+
+    def __ior__(self, other):
+        self.ids |= set(other)
+        return self
+
+
 class Runner:
     def __init__(self, case):
         self.case = case
@@ -59,6 +71,18 @@ class Runner:
             self.cm = self.w.consumer_mdib(self.cons)
             self.rec = NotificationRecorder(self.cm, self.canon)
         self.handed_out = []      # objects handed out by getters (for the isolation stream)
+        self.stored = []          # fault streams: raw notification requests in emission order
+        self.pending = []
+        self.pending_seen = _IdSet()
+        if case.get('delivery') is not None and self.cons is not None:
+            cons_netloc = self.cons._verif_server.netloc
+
+            def hook(ex):
+                if ex.netloc == cons_netloc and ex.method == 'POST':
+                    self.stored.append(ex)
+                    return ('status', 202)      # the provider believes the notification was delivered
+                return None
+            self.w.net.hook = hook
 
     # ------------------------------------------------------------------ ops
     def do_state(self, op):
@@ -128,6 +152,54 @@ class Runner:
                     tr.write_entity(ent, [handle])
             if op.get('abort_at') == len(op['actions']):
                 raise Abort
+
+    def parse(self, ex):
+        try:
+            r = mdibrun.parse_report(ex.decoded_body(), self.cons.msg_reader, self.pm.data_model, self.canon)
+        except Exception as e2:  # noqa: BLE001
+            r = {'kind': 'UNPARSABLE', 'err': repr(e2)[:200]}
+        r['status'] = ex.status
+        r['n'] = self.stored.index(ex) if ex in self.stored else None
+        return r
+
+    def deliver(self, ex):
+        import http.client
+        from world import _RespSocket
+        raw = self.cons._verif_server.handle_raw(ex.request, ('127.0.0.1', 29999))
+        resp = http.client.HTTPResponse(_RespSocket(raw), method='POST')
+        resp.begin()
+        r = dict(self.parse(ex))
+        r['status'] = resp.status
+        return r
+
+    def do_reseq(self, op):
+        import uuid as _u
+        self.pm.sequence_id = _u.UUID(int=0x5E0000 + op['n']).urn
+        if op.get('inst'):
+            self.pm.instance_id = (self.pm.instance_id or 0) + 1
+
+    def do_reload(self, op):
+        # notifications that arrive while GetMdib is in flight are delivered from inside the transport hook
+        inflight = [1] if op.get('inflight') else []
+        self.inflight_delivered = []
+        self.pending += [ex for ex in self.stored if ex not in self.pending_seen]
+        self.pending_seen |= set(id(e) for e in self.pending)
+        old_hook = self.w.net.hook
+        prov_netloc = self.w.provider_server.netloc
+
+        def hook(ex):
+            if ex.netloc == prov_netloc and ex.method == 'POST' and ex.path.endswith('/Get') and inflight:
+                del inflight[:]
+                todo, self.pending = self.pending, []
+                for e in todo:
+                    self.inflight_delivered.append(self.deliver(e))
+                return None
+            return old_hook(ex) if old_hook else None
+        self.w.net.hook = hook
+        try:
+            self.cm.reload_all()
+        finally:
+            self.w.net.hook = old_hook
 
     def real_handle(self, h):
         if h is None:
@@ -230,7 +302,8 @@ class Runner:
             res = 'ok'
             try:
                 {'state': self.do_state, 'ctx': self.do_ctx, 'location': self.do_location,
-                 'descr': self.do_descr}[op['k']](op)
+                 'descr': self.do_descr, 'reseq': self.do_reseq, 'reload': self.do_reload,
+                 'nop': lambda op: None}[op['k']](op)
             except Exception as ex:  # noqa: BLE001
                 res = exc_code(ex)
                 if res.startswith('Other'):
@@ -239,19 +312,38 @@ class Runner:
             reports = []
             for ex in self.w.net.log[n0:]:
                 if self.cons is not None and ex.netloc == self.cons._verif_server.netloc and ex.method == 'POST':
-                    body = ex.decoded_body()
-                    try:
-                        r = mdibrun.parse_report(body, self.cons.msg_reader, self.pm.data_model, self.canon)
-                    except Exception as e2:  # noqa: BLE001
-                        r = {'kind': 'UNPARSABLE', 'err': repr(e2)[:200]}
-                    r['status'] = ex.status
-                    reports.append(r)
-            step = {'res': res, 'prov': delta(prev_p, cur_p), 'reports': reports}
+                    reports.append(self.parse(ex))
+            delivered = []
+            if self.case.get('delivery') is not None and self.cons is not None:
+                reports = [self.parse(ex) for ex in self.w.net.log[n0:] if ex in self.stored]
+                sched = self.case['delivery'][len(trace)] if len(trace) < len(self.case['delivery']) else ['all']
+                self.pending += [ex for ex in self.w.net.log[n0:] if ex in self.stored and ex not in self.pending_seen]
+                self.pending_seen |= set(id(e) for e in self.pending)
+                for tok in sched:
+                    todo = []
+                    if tok == 'all':
+                        todo, self.pending = self.pending, []
+                    elif tok == 'rev':
+                        todo, self.pending = self.pending[::-1], []
+                    elif tok == 'dup':
+                        todo, self.pending = [e for e in self.pending for _ in (0, 1)], []
+                    elif tok == 'drop':
+                        self.pending = []
+                    elif tok == 'newest' and self.pending:
+                        todo, self.pending = [self.pending[-1]], self.pending[:-1]
+                    elif isinstance(tok, list) and tok[0] == 'replay' and self.stored:
+                        todo = [self.stored[tok[1] % len(self.stored)]]
+                    elif isinstance(tok, int) and 0 <= tok < len(self.stored):
+                        todo = [self.stored[tok]]
+                    for ex in todo:
+                        delivered.append(self.deliver(ex))
+            step = {'res': res, 'prov': delta(prev_p, cur_p), 'reports': reports, 'delivered': delivered}
             if self.cm is not None:
                 cur_c = mdibrun.snapshot(self.cm, self.canon)
                 step['cons'] = delta(prev_c, cur_c)
                 step['notif'] = self.rec.take()
                 step['mirror'] = mirror_diff(cur_p, cur_c)
+                step['cmode'] = self.cm._state.name
                 prev_c = cur_c
             prev_p = cur_p
             trace.append(step)
